@@ -304,7 +304,7 @@ func runC12(c c12Case, r *rep.Report) (key, msg string, stats map[string]int64) 
 func TestC12(t *testing.T) {
 	r := rep.New(t, "C12")
 	defer r.Flush()
-	r.Rule("PRNG cases: graceful Close(false) with 0-4 accepted-but-unsent packets on polling (poll pending or absent), WebSocket and WebTransport, optionally with the transport's writer goroutine held at *.send.start while Close runs; silent client (bounded close time on virtual time); a pending poll while the session closes by each cause; Server.Close and HttpServer.Close with 1-20 mixed sessions, buffered packets and an upgrade in progress; oracle: all accepted messages before the close packet/teardown, reason 'forced close', close within max(30 s, PI+PT)+PT, pending poll answered 200 with close/noop, exactly one close event per session and an empty table after shutdown; distinct = case signature")
+	r.Rule("PRNG cases: graceful Close(false) with 0-4 accepted-but-unsent packets on polling (poll pending or absent), WebSocket and WebTransport, optionally with the transport's writer goroutine held at *.send.start while Close runs; silent client (bounded close time on virtual time); a pending poll while the session closes by each cause (incl. the client's own close packet); Server.Close and HttpServer.Close with 1-20 mixed sessions, buffered packets, sessions already waiting in a graceful close, and an upgrade in progress; oracle: all accepted messages before the close packet/teardown, reason 'forced close', close within max(30 s, PI+PT)+PT, pending poll answered 200 with close/noop, exactly one close event per session and an empty table after shutdown; distinct = case signature")
 	n := r.N(3000, 250000)
 	for i := 0; i < n; i++ {
 		if !r.Only(i) {
